@@ -1,4 +1,6 @@
 import WmModel.Props.C18
+import WmModel.Props.C18Router
+import WmModel.Props.C02Tie
 #print axioms Wm.ReqReply.replies_only_own
 #print axioms Wm.ReqReply.operation_ids_distinct
 #print axioms Wm.ReqReply.never_another_requests_reply
@@ -24,3 +26,6 @@ import WmModel.Props.C18
 #print axioms Wm.ReqReply.closed_once_finished_once
 #print axioms Wm.ReqReply.Old.listener_stuck_witness
 #print axioms Wm.ReqReply.Old.listener_stuck_witness_one
+#print axioms Wm.ReqReply.command_settle_eq_handle
+#print axioms Wm.GoHandle.handle_skeleton_eq_model
+#print axioms Wm.GoHandle.publish_skeleton_eq_model
